@@ -92,6 +92,34 @@ fn reuse_dim(prop: &str) -> crate::props::reuse::Dim {
     }
 }
 
+/// a footer (C05) / assertion (C06) must not be conflated with its trimmed, case-folded, normalised ...
+/// variants: built with h, presented with each variant -> reject; presented with h itself -> accept
+fn conflation_pass(prop: &str, protos: &[Proto]) -> Acc {
+    let units = units_proto_layer(protos);
+    let accs = par_units(&units, |(p, l)| {
+        let mut acc = Acc::default();
+        let key = domains::key_pool(*p)[0].clone();
+        let seed = seed_for(*p);
+        for h in domains::hostile_texts() {
+            let (f, a) = if prop == "C05" { (Some(h.clone()), None) } else { (None, Some(h.clone())) };
+            let case = IssueCase::new(*p, *l, &key, seed.as_deref(), "{\"data\":\"x\"}", &f, &a);
+            let Some(token) = issue_with_control(&case, &mut acc) else { continue };
+            for v in domains::conflation_variants(&h) {
+                let mut pres = Presentation::of(&case, &token);
+                if prop == "C05" {
+                    pres.footer = if v.is_empty() { None } else { Some(v.clone()) };
+                } else {
+                    pres.assertion = if v.is_empty() { None } else { Some(v.clone()) };
+                }
+                check(prop, "conflated-variant", &case, &token, &pres, None, &mut acc);
+                acc.choice_points += 1;
+            }
+        }
+        acc
+    });
+    Acc::merge_all(accs)
+}
+
 /// object-reuse histories (second build, reconfigured / re-keyed parser) for the binding this property owns
 fn reuse_pass(prop: &str, protos: &[Proto]) -> Acc {
     let accs = par_units(protos, |p| {
@@ -377,6 +405,7 @@ pub fn run_c05(tier: &str) -> i32 {
     });
     let mut merged = Acc::merge_all(accs);
     merged.merge(reuse_pass("C05", &Proto::ALL));
+    merged.merge(conflation_pass("C05", &Proto::ALL));
     finish(
         run,
         merged,
@@ -470,6 +499,7 @@ pub fn run_c06(tier: &str) -> i32 {
     });
     let mut merged = Acc::merge_all(accs);
     merged.merge(reuse_pass("C06", &protos));
+    merged.merge(conflation_pass("C06", &protos));
     finish(
         run,
         merged,
